@@ -226,7 +226,7 @@ def refIter : Iter :=
   { initLinks := [.pipes, .pumps, .valves], ndxLinks := [.links], sources := [.tanks, .reservoirs],
     seedJunctions := [.junctions], seedLinks := [.links] }
 
-/-- statement tokens of `_update_internal_graph` and `_get_isolated_junctions_and_links` (nesting by `open_`/`close`) -/
+/-- statement tokens of the Python functions (one token = a fixed group of source statements; `for`/`if` tokens are closed by `close`) -/
 inductive PyTok
   -- _update_internal_graph
   | forChanges | ifStatusAttr | ifObjClosed | else_ | write0 | write1 | forMulti | firstLink | forLinkList | ifLinkNotClosed
@@ -246,10 +246,63 @@ inductive PyTok
   | close
   deriving DecidableEq, Repr
 
-def refUpdateToks : List PyTok :=
-  [.forChanges, .ifStatusAttr, .ifObjClosed, .write0, .else_, .write1, .close, .close, .close,
-   .forMulti, .firstLink, .write0, .forLinkList, .ifLinkNotClosed, .write1, .close, .close, .close,
-   .resetReference]
+/-! `_update_internal_graph` as a program with an interpreter (the other Python functions are token skeletons only) -/
+
+inductive PStmt
+  | skip
+  | seq (a b : PStmt)
+  | forChanges (b : PStmt)        -- for obj, attr in self._change_tracker.get_changes(ref_point='graph'):   binds obj
+  | ifStatusAttr (b : PStmt)      -- if 'status' == attr:   (the model's change set holds status changes only)
+  | ifObjClosed (t e : PStmt)     -- if <bound link>.status == LinkStatus.Closed: … else: …
+  | write0                        -- ndx1, ndx2 = ndx_map[<bound link>]; data[ndx1] = 0; data[ndx2] = 0
+  | write1
+  | forMulti (b : PStmt)          -- for key, link_list in self._node_pairs_with_multiple_links.items():   binds link_list
+  | firstLink                     -- first_link = link_list[0]   (binds the link; IndexError on an empty list is not modelled)
+  | forLinkList (b : PStmt)       -- for link in link_list:   binds link
+  | ifLinkNotClosed (b : PStmt)   -- if link.status != LinkStatus.Closed:
+  | resetReference                -- self._change_tracker.reset_reference_point(key='graph')
+  deriving DecidableEq, Repr
+
+def blockP : List PStmt → PStmt
+  | [] => .skip
+  | s :: r => .seq s (blockP r)
+
+structure PSt where
+  data : List Int        -- self._internal_graph.data
+  cur : Nat              -- the link currently bound (obj / first_link / link)
+  lst : List Nat         -- link_list
+  reset : Bool           -- reset_reference_point('graph') was called
+
+def execP (s : Sim) : PStmt → PSt → PSt
+  | .skip, st => st
+  | .seq a b, st => execP s b (execP s a st)
+  | .forChanges b, st => s.changed.foldl (fun st k => execP s b { st with cur := k }) st
+  | .ifStatusAttr b, st => execP s b st
+  | .ifObjClosed t e, st => if s.status st.cur = 0 then execP s t st else execP s e st
+  | .write0, st => { st with data := writeLink s.ndx st.data st.cur 0 }
+  | .write1, st => { st with data := writeLink s.ndx st.data st.cur 1 }
+  | .forMulti b, st => s.multi.foldl (fun st e => execP s b { st with lst := e.2 }) st
+  | .firstLink, st => { st with cur := st.lst.headD st.cur }
+  | .forLinkList b, st => st.lst.foldl (fun st l => execP s b { st with cur := l }) st
+  | .ifLinkNotClosed b, st => if s.status st.cur ≠ 0 then execP s b st else st
+  | .resetReference, st => { st with reset := true }
+
+/-- what the run of the program leaves in the simulator object -/
+def applyP (s : Sim) (r : PSt) : Sim :=
+  if r.reset then
+    { s with g := { s.g with data := r.data }, prev := (List.range s.net.links.length).map s.status, changed := [] }
+  else { s with g := { s.g with data := r.data } }
+
+def refUpdate : PStmt := blockP [
+  .forChanges (blockP [
+    .ifStatusAttr (blockP [
+      .ifObjClosed (blockP [.write0]) (blockP [.write1])])]),
+  .forMulti (blockP [
+    .firstLink,
+    .write0,
+    .forLinkList (blockP [
+      .ifLinkNotClosed (blockP [.write1])])]),
+  .resetReference]
 
 def refIsolatedToks : List PyTok :=
   [.forPrevJ, .clearJ, .close, .forPrevL, .clearL, .close,
